@@ -13,6 +13,9 @@
 // depot_limits_hold}, lemma_depot_without_type_limit_suffices, lemma_spawn_keeps_depot_limits; text copied from
 // env/depot_choice_shim.vs).  The slices that stub spawn_vehicle_for_path with its full contract (dummy_ops, sched_ctor) and
 // slices/add_path.vs (env/add_path_shim.vs, included after this file, no longer defines the first part itself) use it from here.
+// VERY LAST BLOCK (prefix `spcl_`): CLOSURE of sv_ok under spawn_vehicle_for_path -- vocabulary (the clauses of sv_formations_ok by name,
+// spcl_step, spcl_closed) and proved lemmas (spcl_lemma_closure); part of the lemma text is copied from env/sched_ctor_shim.vs under new
+// names (see there).  No assumption.
 use vstd::std_specs::cmp::OrdSpec;
 
 // A-display: `{}` of a VehicleTypeIdx (derive_more Display of the repository; a no-op outside verus!)
@@ -1093,4 +1096,629 @@ pub proof fn lemma_usage_counts_small(s: &Schedule, vehicle_type: VehicleTypeIdx
         && spawned_total(du, s.network.sp_depot_idx_of(sdn[i]), s.network.vehicle_types.ids_sorted@) <= u32::MAX by {
         lemma_usage_counts_le_vehicles(s, s.network.sp_depot_idx_of(sdn[i]), vehicle_type);
     }
+}
+
+// =====================================================================================================
+// CLOSURE (C10 / C09 induction step): the result of spawn_vehicle_for_path satisfies the schedule-invariant bundle
+// sv_ok() again.  Everything below is NEW vocabulary (prefix `spcl_`) and PROVED lemmas -- no assumption.  The clauses of
+// sv_formations_ok are named one by one (spcl_forms_cover_activities .. spcl_unserved_covers; spcl_lemma_formations_split:
+// sv_formations_ok is exactly their conjunction) so that the postcondition can be stated conjunct by conjunct.
+// The sum lemmas (spcl_lemma_nsum_*, spcl_lemma_remove_no_dup) and the counting lemmas of the rotation cycles (spcl_cyc_elems ..
+// spcl_lemma_len_sum_le_vehicles) are TEXT COPIED from env/sched_ctor_shim.vs (lemma_nsum_zero / _remove / _drop_last / _sub,
+// lemma_remove_no_dup, cyc_elems .., lemma_len_sum_le_vehicles) under new names: that file is included AFTER this one by
+// slices/sched_ctor.vs and must not be edited; spcl_lemma_ids is lemma_step_ids of that file.
+// What is NOT copied: from_tours re-establishes the C09 clause of sv_formations_ok from a STRONGER loop invariant (the cached pair
+// IS the from-scratch sum, lemma_step_unserved); here the clause is re-established from ITSELF (spcl_lemma_unserved_covers).
+// =====================================================================================================
+// ---- sums over node lists (copied) ------------------------------------------------------------------------------------------
+pub proof fn spcl_lemma_nsum_zero(s: Seq<NodeIdx>, g: spec_fn(NodeIdx) -> int)
+    requires forall|i: int| 0 <= i < s.len() ==> g(#[trigger] s[i]) == 0,
+    ensures nsum(s, g) == 0,
+{
+    assert forall|i: int| 0 <= i < s.len() implies 0 <= #[trigger] g(s[i]) <= 0 by {}
+    lemma_nsum_nonneg(s, g, 0);
+}
+pub proof fn spcl_lemma_nsum_remove(s: Seq<NodeIdx>, g: spec_fn(NodeIdx) -> int, p: int)
+    requires 0 <= p < s.len(),
+    ensures nsum(s, g) == nsum(s.remove(p), g) + g(s[p]),
+{
+    let a = s.subrange(0, p);
+    let b = s.subrange(p + 1, s.len() as int);
+    assert(s =~= a + seq![s[p]] + b);
+    assert(s.remove(p) =~= a + b);
+    lemma_nsum_append(a + seq![s[p]], b, g);
+    lemma_nsum_append(a, seq![s[p]], g);
+    lemma_nsum_append(a, b, g);
+    assert(seq![s[p]].map_values(g) =~= seq![g(s[p])]);
+    lemma_isum_one(g(s[p]));
+}
+pub proof fn spcl_lemma_remove_no_dup(s: Seq<NodeIdx>, p: int)
+    requires 0 <= p < s.len(), s.no_duplicates(),
+    ensures s.remove(p).no_duplicates(), !s.remove(p).contains(s[p]),
+        forall|x: NodeIdx| x != s[p] && s.contains(x) ==> #[trigger] s.remove(p).contains(x),
+        forall|i: int| 0 <= i < s.remove(p).len() ==> s.contains(#[trigger] s.remove(p)[i]),
+{
+    let t = s.remove(p);
+    assert forall|i: int, j: int| 0 <= i < t.len() && 0 <= j < t.len() && i != j implies t[i] != t[j] by {
+        let a = if i < p { i } else { i + 1 };
+        let b = if j < p { j } else { j + 1 };
+        assert(t[i] == s[a] && t[j] == s[b]);
+    }
+    if t.contains(s[p]) {
+        let i = choose|i: int| 0 <= i < t.len() && t[i] == s[p];
+        let a = if i < p { i } else { i + 1 };
+        assert(t[i] == s[a]);
+    }
+    assert forall|x: NodeIdx| x != s[p] && s.contains(x) implies #[trigger] t.contains(x) by {
+        let i = choose|i: int| 0 <= i < s.len() && s[i] == x;
+        if i < p { assert(t[i] == x); } else { assert(t[i - 1] == x); }
+    }
+    assert forall|i: int| 0 <= i < t.len() implies s.contains(#[trigger] t[i]) by {
+        let a = if i < p { i } else { i + 1 };
+        assert(t[i] == s[a]);
+    }
+}
+pub proof fn spcl_lemma_nsum_drop_last(a: Seq<NodeIdx>, g: spec_fn(NodeIdx) -> int)
+    requires a.len() > 0,
+    ensures nsum(a, g) == nsum(a.drop_last(), g) + g(a.last()),
+{
+    assert(a.map_values(g).drop_last() =~= a.drop_last().map_values(g));
+}
+/// a duplicate-free list s whose nodes with a non-zero (non-negative) weight all occur in the duplicate-free list a
+/// weighs at most as much as a
+pub proof fn spcl_lemma_nsum_sub(s: Seq<NodeIdx>, a: Seq<NodeIdx>, g: spec_fn(NodeIdx) -> int)
+    requires
+        s.no_duplicates(), a.no_duplicates(),
+        forall|n: NodeIdx| 0 <= #[trigger] g(n),
+        forall|i: int| 0 <= i < s.len() && g(#[trigger] s[i]) != 0 ==> a.contains(s[i]),
+    ensures nsum(s, g) <= nsum(a, g),
+    decreases a.len(),
+{
+    if a.len() == 0 {
+        assert forall|i: int| 0 <= i < s.len() implies g(#[trigger] s[i]) == 0 by {
+            if g(s[i]) != 0 { assert(a.contains(s[i])); }
+        }
+        spcl_lemma_nsum_zero(s, g);
+        assert(a.map_values(g) =~= Seq::<int>::empty());
+    } else {
+        let x = a.last();
+        let d = a.drop_last();
+        spcl_lemma_nsum_drop_last(a, g);
+        if s.contains(x) {
+            let p = choose|p: int| 0 <= p < s.len() && s[p] == x;
+            let t = s.remove(p);
+            spcl_lemma_nsum_remove(s, g, p);
+            spcl_lemma_remove_no_dup(s, p);
+            assert forall|i: int| 0 <= i < t.len() && g(#[trigger] t[i]) != 0 implies d.contains(t[i]) by {
+                assert(s.contains(t[i]));
+                let j = choose|j: int| 0 <= j < s.len() && s[j] == t[i];
+                assert(a.contains(s[j]));
+                lemma_drop_last_contains(a);
+            }
+            lemma_drop_last_contains(a);
+            spcl_lemma_nsum_sub(t, d, g);
+        } else {
+            assert forall|i: int| 0 <= i < s.len() && g(#[trigger] s[i]) != 0 implies d.contains(s[i]) by {
+                assert(s.contains(s[i]));
+                lemma_drop_last_contains(a);
+            }
+            lemma_drop_last_contains(a);
+            spcl_lemma_nsum_sub(s, d, g);
+        }
+    }
+}
+
+// ---- the clauses of sv_formations_ok, one by one ---------------------------------------------------------------------------
+impl Schedule {
+    /// clause 1 of sv_formations_ok (C10): every activity of the network has a formation entry
+    pub open spec fn spcl_forms_cover_activities(&self) -> bool {
+        let tf = self.train_formations@;
+        forall|n: NodeIdx| self.network.has(n) && self.network.sp_node(n).sp_is_activity() ==> #[trigger] tf.contains_key(n)
+    }
+    /// clause 2 (magnitude): a formation lists at most 2^17 vehicles
+    pub open spec fn spcl_forms_len_small(&self) -> bool {
+        let tf = self.train_formations@;
+        forall|n: NodeIdx| #[trigger] tf.contains_key(n) ==> tf[n].formation@.len() <= max_vehicles()
+    }
+    /// clause 3 (instance validity, A-types): the vehicle type a service trip prescribes is a vehicle type of the network
+    pub open spec fn spcl_trips_typed(&self) -> bool {
+        forall|n: NodeIdx| self.network.has(n) && #[trigger] self.network.sp_node(n) is Service ==> self.network.is_trip(n)
+    }
+    /// clause 4 (magnitude): the u32 capacity / seat sums of a formation still fit with one more vehicle of any type
+    pub open spec fn spcl_forms_sums_fit(&self) -> bool {
+        let tf = self.train_formations@;
+        forall|n: NodeIdx, vt: VehicleTypeIdx| #![trigger tf[n], self.vtypes()[vt]] tf.contains_key(n) && self.vtypes().contains_key(vt)
+            ==> fcap(tf[n].formation@) + self.vtypes()[vt].capacity <= u32::MAX && fseats(tf[n].formation@) + self.vtypes()[vt].seats <= u32::MAX
+    }
+    /// clause 5 (C09): the cached unserved-passengers pair covers the contribution of any duplicate-free list of nodes
+    pub open spec fn spcl_unserved_covers(&self) -> bool {
+        forall|s: Seq<NodeIdx>, c: int| #![trigger self.un_old(s, s.len() as int, c)] s.no_duplicates() && all_in_net(&self.network, s) && (c == 0 || c == 1)
+            ==> self.un_old(s, s.len() as int, c) <= self.unserved_c(c)
+    }
+    /// the hypothesis on the RESULT under which clause 2 holds again: the formations that GREW (the activities of the new tour
+    /// `nodes`) still list at most 2^17 vehicles.  (sv_ok does not relate the length of a formation to the number of vehicles
+    /// of the schedule, so "+ 1" cannot be bounded from the invariant alone.)
+    pub open spec fn spcl_grown_len_small(&self, nodes: Seq<NodeIdx>) -> bool {
+        forall|n: NodeIdx| moved_nd(&self.network, nodes, n) ==> (#[trigger] self.train_formations@[n]).formation@.len() <= max_vehicles()
+    }
+    /// the hypothesis on the RESULT under which clause 4 holds again: the u32 sums of the formations that GREW still fit with one
+    /// more vehicle of any type
+    pub open spec fn spcl_grown_sums_fit(&self, nodes: Seq<NodeIdx>) -> bool {
+        let tf = self.train_formations@;
+        forall|n: NodeIdx, vt: VehicleTypeIdx| #![trigger tf[n], self.vtypes()[vt]] moved_nd(&self.network, nodes, n) && self.vtypes().contains_key(vt)
+            ==> fcap(tf[n].formation@) + self.vtypes()[vt].capacity <= u32::MAX && fseats(tf[n].formation@) + self.vtypes()[vt].seats <= u32::MAX
+    }
+    /// what the closure lemmas use of the postcondition of spawn_vehicle_for_path(vt, path) -> Ok((s1, id))
+    pub open spec fn spcl_step(&self, vt: VehicleTypeIdx, path: Seq<NodeIdx>, s1: &Schedule, id: VehicleIdx) -> bool {
+        &&& self.spawned(vt, path, s1, id)
+        &&& self.listed(vt, s1, id)
+        &&& self.formations_follow(s1, id)
+        &&& self.transitions_follow(vt, s1)
+        &&& usage_exact(s1.depot_usage@, &self.network, s1.vehicles@, s1.tours@)
+    }
+}
+/// sv_formations_ok is the conjunction of the five named clauses
+pub proof fn spcl_lemma_formations_split(s: &Schedule)
+    ensures s.sv_formations_ok() <==> (s.spcl_forms_cover_activities() && s.spcl_forms_len_small() && s.spcl_trips_typed()
+        && s.spcl_forms_sums_fit() && s.spcl_unserved_covers()),
+{
+}
+
+// ---- C10 (ids / listings) after one spawn (lemma_step_ids of env/sched_ctor_shim.vs) -----------------------------------------
+pub proof fn spcl_lemma_ids(s0: &Schedule, s1: &Schedule, vt: VehicleTypeIdx, path: Seq<NodeIdx>, id: VehicleIdx)
+    requires s0.sv_ids_ok(), s0.vehicle_counter <= 0xffff, s0.spawned(vt, path, s1, id), s0.listed(vt, s1, id),
+    ensures s1.sv_ids_ok(),
+{
+    assert forall|v: VehicleIdx| #[trigger] s1.vehicles@.contains_key(v)
+        implies v is Vehicle && (v->Vehicle_0 as int) < s1.vehicle_counter && s1.vehicles@[v].idx == v by {
+        if v != id { assert(s0.vehicles@.contains_key(v)); }
+    }
+    assert forall|v: VehicleIdx| #[trigger] s1.vehicles@.contains_key(v) <==> s1.tours@.contains_key(v) by {
+        if v != id { assert(s0.vehicles@.contains_key(v) <==> s0.tours@.contains_key(v)); }
+    }
+    assert forall|t: VehicleTypeIdx| #[trigger] s1.vehicle_ids_grouped_and_sorted@.contains_key(t) implies sorted_cmp(s1.listing(t)) by {
+        if t != vt { assert(s0.vehicle_ids_grouped_and_sorted@.contains_key(t)); assert(s1.listing(t) == s0.listing(t)); }
+    }
+}
+/// the type-related preconditions that are not part of sv_ok: a known type stays known
+pub proof fn spcl_lemma_types_known(s0: &Schedule, s1: &Schedule, vt: VehicleTypeIdx, path: Seq<NodeIdx>, id: VehicleIdx)
+    requires s0.spawned(vt, path, s1, id), s0.listed(vt, s1, id),
+    ensures forall|t: VehicleTypeIdx| s0.type_known(t) ==> #[trigger] s1.type_known(t),
+{
+    assert forall|t: VehicleTypeIdx| s0.type_known(t) implies #[trigger] s1.type_known(t) by {
+        assert(sched_types(s1) == sched_types(s0));
+        assert(s1.vehicle_ids_grouped_and_sorted@.contains_key(t));
+    }
+}
+
+// ---- formations after one spawn ---------------------------------------------------------------------------------------------
+/// the weight function of the unserved passengers w.r.t. a formation table (as un_fn of env/sched_ctor_shim.vs)
+pub open spec fn spcl_un_fn(net: &Network, tf: Formations, c: int) -> spec_fn(NodeIdx) -> int {
+    |n: NodeIdx| unserved_at(net, n, tf[n].formation@, c)
+}
+/// Schedule::un_sum over the old formations, as a sum over the list
+pub proof fn spcl_lemma_un_old_nsum(sch: &Schedule, tf: Formations, s: Seq<NodeIdx>, k: int, c: int)
+    requires 0 <= k <= s.len(),
+    ensures sch.un_sum(tf, None, None, s, k, false, c) == nsum(s.take(k), spcl_un_fn(&sch.network, tf, c)),
+    decreases k,
+{
+    let g = spcl_un_fn(&sch.network, tf, c);
+    if k > 0 {
+        spcl_lemma_un_old_nsum(sch, tf, s, k - 1, c);
+        spcl_lemma_nsum_drop_last(s.take(k), g);
+        assert(s.take(k).drop_last() =~= s.take(k - 1));
+    } else {
+        assert(s.take(0).map_values(g) =~= Seq::<int>::empty());
+    }
+}
+/// Schedule::un_sum over the NEW formations of the moved nodes (read off the old table), as a sum over the list w.r.t. the new table
+pub proof fn spcl_lemma_un_new_nsum(sch: &Schedule, tf0: Formations, tf1: Formations, rv: Option<Vehicle>, s: Seq<NodeIdx>, k: int, c: int)
+    requires 0 <= k <= s.len(), sch.moved_get_replacement(s, tf0, tf1, None, rv),
+    ensures sch.un_sum(tf0, None, rv, s, k, true, c) == nsum(s.take(k), spcl_un_fn(&sch.network, tf1, c)),
+    decreases k,
+{
+    let g = spcl_un_fn(&sch.network, tf1, c);
+    if k > 0 {
+        spcl_lemma_un_new_nsum(sch, tf0, tf1, rv, s, k - 1, c);
+        spcl_lemma_nsum_drop_last(s.take(k), g);
+        assert(s.take(k).drop_last() =~= s.take(k - 1));
+        let n = s[k - 1];
+        if !sch.network.sp_node(n).sp_is_depot() {
+            assert(s.contains(n));
+            assert(moved_nd(&sch.network, s, n));
+            assert(tf1[n].formation@ == sch.repl_seq(tf0[n].formation@, None, rv));
+        }
+    } else {
+        assert(s.take(0).map_values(g) =~= Seq::<int>::empty());
+    }
+}
+/// the nodes of q that are not in `nodes`, in order
+pub open spec fn spcl_rest(q: Seq<NodeIdx>, nodes: Seq<NodeIdx>) -> Seq<NodeIdx>
+    decreases q.len(),
+{
+    if q.len() == 0 { Seq::empty() }
+    else if nodes.contains(q.last()) { spcl_rest(q.drop_last(), nodes) }
+    else { spcl_rest(q.drop_last(), nodes).push(q.last()) }
+}
+pub proof fn spcl_lemma_rest(q: Seq<NodeIdx>, nodes: Seq<NodeIdx>)
+    requires q.no_duplicates(),
+    ensures
+        spcl_rest(q, nodes).no_duplicates(),
+        forall|i: int| 0 <= i < spcl_rest(q, nodes).len() ==> q.contains(#[trigger] spcl_rest(q, nodes)[i]) && !nodes.contains(spcl_rest(q, nodes)[i]),
+        forall|i: int| 0 <= i < q.len() ==> nodes.contains(#[trigger] q[i]) || spcl_rest(q, nodes).contains(q[i]),
+    decreases q.len(),
+{
+    if q.len() > 0 {
+        let d = q.drop_last();
+        let x = q.last();
+        let rd = spcl_rest(d, nodes);
+        let r = spcl_rest(q, nodes);
+        assert(d.no_duplicates()) by {
+            assert forall|i: int, j: int| 0 <= i < d.len() && 0 <= j < d.len() && i != j implies d[i] != d[j] by { assert(d[i] == q[i] && d[j] == q[j]); }
+        }
+        spcl_lemma_rest(d, nodes);
+        lemma_drop_last_contains(q);
+        assert(!d.contains(x)) by {
+            if d.contains(x) { let i = choose|i: int| 0 <= i < d.len() && d[i] == x; assert(q[i] == x && q[q.len() - 1] == x); }
+        }
+        assert forall|i: int| 0 <= i < r.len() implies q.contains(#[trigger] r[i]) && !nodes.contains(r[i]) by {
+            if i < rd.len() { assert(r[i] == rd[i]); assert(d.contains(rd[i])); } else { assert(r[i] == x); assert(q[q.len() - 1] == x); }
+        }
+        assert(r.no_duplicates()) by {
+            assert forall|i: int, j: int| 0 <= i < r.len() && 0 <= j < r.len() && i != j implies r[i] != r[j] by {
+                if i < rd.len() && j < rd.len() { assert(r[i] == rd[i] && r[j] == rd[j]); }
+                else if i < rd.len() { assert(r[i] == rd[i]); assert(d.contains(rd[i])); assert(r[j] == x); }
+                else if j < rd.len() { assert(r[j] == rd[j]); assert(d.contains(rd[j])); assert(r[i] == x); }
+            }
+        }
+        assert forall|i: int| 0 <= i < q.len() implies nodes.contains(#[trigger] q[i]) || r.contains(q[i]) by {
+            if i < d.len() {
+                assert(q[i] == d[i]);
+                if rd.contains(d[i]) { let j = choose|j: int| 0 <= j < rd.len() && rd[j] == d[i]; assert(r[j] == d[i]); }
+            } else if !nodes.contains(x) {
+                assert(r[r.len() - 1] == x);
+            }
+        }
+    }
+}
+/// C09 clause of sv_formations_ok, re-established from ITSELF: the new cached pair is the old one minus the old contribution of
+/// the new tour's nodes plus their new contribution (formations_follow: the exact delta of update_train_formation); the
+/// formations of all other nodes are untouched.  For a duplicate-free list q of the network: L = (nodes of the new tour) ++
+/// (nodes of q that are not on the tour) is duplicate-free, so the OLD pair covers L w.r.t. the old table; q weighs at most as
+/// much as L w.r.t. the new table; on the tour the new weights are what was added, off the tour old and new weights agree.
+pub proof fn spcl_lemma_unserved_covers(s0: &Schedule, s1: &Schedule, id: VehicleIdx)
+    requires
+        s1.network == s0.network,
+        s0.spcl_unserved_covers(),
+        s0.formations_follow(s1, id),
+        tour_of_net(&s0.network, &s1.tours@[id]),
+    ensures s1.spcl_unserved_covers(),
+{
+    let net = &s0.network;
+    let tf0 = s0.train_formations@;
+    let tf1 = s1.train_formations@;
+    let rv = Some(s1.vehicles@[id]);
+    let t = &s1.tours@[id];
+    let nodes = t.nodes@;
+    let n = nodes.len() as int;
+    assert(nodes.no_duplicates()) by {
+        assert forall|i: int, j: int| 0 <= i < nodes.len() && 0 <= j < nodes.len() && i != j implies nodes[i] != nodes[j] by {
+            if nodes[i] == nodes[j] { lemma_tour_distinct(t, i, j); }
+        }
+    }
+    assert(all_in_net(net, nodes)) by {
+        assert forall|i: int| 0 <= i < nodes.len() implies #[trigger] net.has(nodes[i]) by { lemma_tour_kinds(t, i); }
+    }
+    assert forall|q: Seq<NodeIdx>, c: int| #![trigger s1.un_old(q, q.len() as int, c)] q.no_duplicates() && all_in_net(&s1.network, q) && (c == 0 || c == 1)
+        implies s1.un_old(q, q.len() as int, c) <= s1.unserved_c(c) by {
+        let g0 = spcl_un_fn(net, tf0, c);
+        let g1 = spcl_un_fn(net, tf1, c);
+        let rest = spcl_rest(q, nodes);
+        let l = nodes + rest;
+        spcl_lemma_rest(q, nodes);
+        assert(l.no_duplicates()) by {
+            assert forall|i: int, j: int| 0 <= i < l.len() && 0 <= j < l.len() && i != j implies l[i] != l[j] by {
+                if i < n && j < n { assert(l[i] == nodes[i] && l[j] == nodes[j]); }
+                else if i < n { assert(l[i] == nodes[i] && l[j] == rest[j - n]); assert(!nodes.contains(rest[j - n])); }
+                else if j < n { assert(l[j] == nodes[j] && l[i] == rest[i - n]); assert(!nodes.contains(rest[i - n])); }
+                else { assert(l[i] == rest[i - n] && l[j] == rest[j - n]); }
+            }
+        }
+        assert(all_in_net(net, l)) by {
+            assert forall|i: int| 0 <= i < l.len() implies #[trigger] net.has(l[i]) by {
+                if i < n { assert(l[i] == nodes[i]); }
+                else {
+                    assert(l[i] == rest[i - n]);
+                    assert(q.contains(rest[i - n]));
+                    let j = choose|j: int| 0 <= j < q.len() && q[j] == rest[i - n];
+                    assert(net.has(q[j]));
+                }
+            }
+        }
+        // the old pair covers L w.r.t. the old table
+        assert(s0.un_old(l, l.len() as int, c) <= s0.unserved_c(c));
+        spcl_lemma_un_old_nsum(s0, tf0, l, l.len() as int, c);
+        assert(l.take(l.len() as int) =~= l);
+        lemma_nsum_append(nodes, rest, g0);
+        // q w.r.t. the new table weighs at most as much as L
+        spcl_lemma_un_old_nsum(s1, tf1, q, q.len() as int, c);
+        assert(q.take(q.len() as int) =~= q);
+        assert forall|i: int| 0 <= i < q.len() && g1(#[trigger] q[i]) != 0 implies l.contains(q[i]) by {
+            if nodes.contains(q[i]) {
+                let j = choose|j: int| 0 <= j < nodes.len() && nodes[j] == q[i];
+                assert(l[j] == q[i]);
+            } else {
+                assert(rest.contains(q[i]));
+                let j = choose|j: int| 0 <= j < rest.len() && rest[j] == q[i];
+                assert(l[n + j] == q[i]);
+            }
+        }
+        assert forall|x: NodeIdx| 0 <= #[trigger] g1(x) by {}
+        spcl_lemma_nsum_sub(q, l, g1);
+        lemma_nsum_append(nodes, rest, g1);
+        // off the tour old and new weights agree
+        assert(rest.map_values(g1) =~= rest.map_values(g0)) by {
+            assert forall|i: int| 0 <= i < rest.len() implies g1(#[trigger] rest[i]) == g0(rest[i]) by {
+                assert(!moved_nd(net, nodes, rest[i]));
+                assert(tf1[rest[i]] == tf0[rest[i]]);
+            }
+        }
+        // on the tour: what was subtracted / added
+        lemma_un_old(s0, tf0, None, rv, nodes, n, c);
+        spcl_lemma_un_old_nsum(s0, tf0, nodes, n, c);
+        spcl_lemma_un_new_nsum(s0, tf0, tf1, rv, nodes, n, c);
+        assert(nodes.take(n) =~= nodes);
+    }
+}
+/// the clauses of sv_formations_ok that one more vehicle cannot break (1: coverage, 3: instance clause) and the two magnitude
+/// clauses under the stated hypotheses on the grown formations of the result
+pub proof fn spcl_lemma_forms_frame(s0: &Schedule, s1: &Schedule, id: VehicleIdx)
+    requires s1.network == s0.network, s0.formations_follow(s1, id),
+    ensures
+        s0.spcl_forms_cover_activities() ==> s1.spcl_forms_cover_activities(),
+        s0.spcl_trips_typed() ==> s1.spcl_trips_typed(),
+        s0.spcl_forms_len_small() && s1.spcl_grown_len_small(s1.tours@[id].nodes@) ==> s1.spcl_forms_len_small(),
+        s0.spcl_forms_sums_fit() && s1.spcl_grown_sums_fit(s1.tours@[id].nodes@) ==> s1.spcl_forms_sums_fit(),
+{
+    let net = &s0.network;
+    let tf0 = s0.train_formations@;
+    let tf1 = s1.train_formations@;
+    let nodes = s1.tours@[id].nodes@;
+    assert forall|n: NodeIdx| #[trigger] tf1.contains_key(n) <==> tf0.contains_key(n) by {
+        assert(tf1.dom().contains(n) <==> tf0.dom().contains(n));
+    }
+    if s0.spcl_forms_cover_activities() {
+        assert forall|n: NodeIdx| s1.network.has(n) && s1.network.sp_node(n).sp_is_activity() implies #[trigger] tf1.contains_key(n) by {
+            assert(tf0.contains_key(n));
+        }
+    }
+    if s0.spcl_forms_len_small() && s1.spcl_grown_len_small(nodes) {
+        assert forall|n: NodeIdx| #[trigger] tf1.contains_key(n) implies tf1[n].formation@.len() <= max_vehicles() by {
+            assert(tf0.contains_key(n));
+            if !moved_nd(net, nodes, n) { assert(tf1[n] == tf0[n]); }
+        }
+    }
+    if s0.spcl_forms_sums_fit() && s1.spcl_grown_sums_fit(nodes) {
+        assert forall|n: NodeIdx, vt: VehicleTypeIdx| #![trigger tf1[n], s1.vtypes()[vt]] tf1.contains_key(n) && s1.vtypes().contains_key(vt)
+            implies fcap(tf1[n].formation@) + s1.vtypes()[vt].capacity <= u32::MAX && fseats(tf1[n].formation@) + s1.vtypes()[vt].seats <= u32::MAX by {
+            assert(tf0.contains_key(n));
+            if !moved_nd(net, nodes, n) {
+                assert(tf1[n] == tf0[n]);
+                assert(fcap(tf0[n].formation@) + s0.vtypes()[vt].capacity <= u32::MAX && fseats(tf0[n].formation@) + s0.vtypes()[vt].seats <= u32::MAX);
+            }
+        }
+    }
+}
+
+// ---- rotation cycles: counting (copied from env/sched_ctor_shim.vs) -----------------------------------------------------------
+/// the vehicles in the first k cycles
+pub open spec fn spcl_cyc_elems(t: TView, k: int) -> Set<VehicleIdx>
+    decreases k,
+{
+    if k <= 0 { Set::empty() } else { spcl_cyc_elems(t, k - 1).union(t.cyc(k - 1).to_set()) }
+}
+pub proof fn spcl_lemma_cyc_elems_member(t: TView, k: int, v: VehicleIdx)
+    requires 0 <= k <= t.n(),
+    ensures spcl_cyc_elems(t, k).contains(v) <==> exists|i: int| 0 <= i < k && (#[trigger] t.cyc(i)).contains(v),
+    decreases k,
+{
+    if k > 0 {
+        spcl_lemma_cyc_elems_member(t, k - 1, v);
+        if spcl_cyc_elems(t, k).contains(v) {
+            if t.cyc(k - 1).contains(v) { assert(0 <= k - 1 < k && t.cyc(k - 1).contains(v)); }
+            else {
+                let i = choose|i: int| 0 <= i < k - 1 && (#[trigger] t.cyc(i)).contains(v);
+                assert(0 <= i < k && t.cyc(i).contains(v));
+            }
+        }
+        if exists|i: int| 0 <= i < k && (#[trigger] t.cyc(i)).contains(v) {
+            let i = choose|i: int| 0 <= i < k && (#[trigger] t.cyc(i)).contains(v);
+            if i < k - 1 { assert(0 <= i < k - 1 && t.cyc(i).contains(v)); }
+        }
+    }
+}
+pub proof fn spcl_lemma_cyc_elems_len(t: TView, k: int)
+    requires t.wf_cycles(), 0 <= k <= t.n(),
+    ensures spcl_cyc_elems(t, k).len() == sum_seq(lens_of(t.cycles).take(k)),
+    decreases k,
+{
+    let l = lens_of(t.cycles);
+    if k > 0 {
+        spcl_lemma_cyc_elems_len(t, k - 1);
+        let a = spcl_cyc_elems(t, k - 1);
+        let b = t.cyc(k - 1).to_set();
+        assert(a.disjoint(b)) by {
+            assert forall|v: VehicleIdx| !(a.contains(v) && b.contains(v)) by {
+                if a.contains(v) && b.contains(v) {
+                    spcl_lemma_cyc_elems_member(t, k - 1, v);
+                    let i = choose|i: int| 0 <= i < k - 1 && (#[trigger] t.cyc(i)).contains(v);
+                    let x = choose|x: int| 0 <= x < t.cyc(i).len() && t.cyc(i)[x] == v;
+                    let ck = t.cyc(k - 1);
+                    let y = choose|y: int| 0 <= y < ck.len() && ck[y] == v;
+                    assert(t.cyc(i)[x] != t.cyc(k - 1)[y]);
+                }
+            }
+        }
+        vstd::set_lib::lemma_set_disjoint_lens(a, b);
+        t.cyc(k - 1).unique_seq_to_set();
+        assert(l.take(k).drop_last() =~= l.take(k - 1));
+        assert(l.take(k).last() == t.cyc(k - 1).len());
+    } else {
+        assert(l.take(0) =~= Seq::<int>::empty());
+    }
+}
+/// C15: a consistent transition holds as many vehicles as its lookup has keys
+pub proof fn spcl_lemma_total_len_is_lookup(t: TView)
+    requires t.wf_cycles(), t.wf_lookup(),
+    ensures t.total_len() == t.lookup.dom().len(),
+{
+    let l = lens_of(t.cycles);
+    spcl_lemma_cyc_elems_len(t, t.n());
+    assert(l.take(t.n()) =~= l);
+    assert(spcl_cyc_elems(t, t.n()) =~= t.lookup.dom()) by {
+        assert forall|v: VehicleIdx| spcl_cyc_elems(t, t.n()).contains(v) <==> t.lookup.dom().contains(v) by {
+            spcl_lemma_cyc_elems_member(t, t.n(), v);
+            if spcl_cyc_elems(t, t.n()).contains(v) {
+                let i = choose|i: int| 0 <= i < t.n() && (#[trigger] t.cyc(i)).contains(v);
+                let x = choose|x: int| 0 <= x < t.cyc(i).len() && t.cyc(i)[x] == v;
+                assert(t.lookup.contains_key(t.cyc(i)[x]));
+            }
+            if t.lookup.contains_key(v) {
+                assert(0 <= t.cycle_of(v) < t.n() && t.cyc(t.cycle_of(v)).contains(v));
+            }
+        }
+    }
+}
+/// the vehicles of one type
+pub open spec fn spcl_typed_vehicles(vehicles: VehicleMap, vt: VehicleTypeIdx) -> Set<VehicleIdx> {
+    vehicles.dom().filter(|v: VehicleIdx| vtype(vehicles[v]) == vt)
+}
+/// the vehicles of the first k listed types
+pub open spec fn spcl_typed_union(vehicles: VehicleMap, vts: Seq<VehicleTypeIdx>, k: int) -> Set<VehicleIdx>
+    decreases k,
+{
+    if k <= 0 { Set::empty() } else { spcl_typed_union(vehicles, vts, k - 1).union(spcl_typed_vehicles(vehicles, vts[k - 1])) }
+}
+pub proof fn spcl_lemma_typed_union(vehicles: VehicleMap, trs: Map<VehicleTypeIdx, Transition>, vts: Seq<VehicleTypeIdx>, k: int)
+    requires
+        vts.no_duplicates(), 0 <= k <= vts.len(),
+        forall|i: int| 0 <= i < vts.len() ==> (#[trigger] trs[vts[i]]).total_len() == spcl_typed_vehicles(vehicles, vts[i]).len(),
+    ensures
+        spcl_typed_union(vehicles, vts, k).len() == len_sum(trs, vts.take(k)),
+        spcl_typed_union(vehicles, vts, k).subset_of(vehicles.dom()),
+        forall|v: VehicleIdx| spcl_typed_union(vehicles, vts, k).contains(v) ==> exists|j: int| 0 <= j < k && vtype(vehicles[v]) == #[trigger] vts[j],
+    decreases k,
+{
+    if k > 0 {
+        spcl_lemma_typed_union(vehicles, trs, vts, k - 1);
+        let a = spcl_typed_union(vehicles, vts, k - 1);
+        let b = spcl_typed_vehicles(vehicles, vts[k - 1]);
+        assert(a.disjoint(b)) by {
+            assert forall|v: VehicleIdx| !(a.contains(v) && b.contains(v)) by {
+                if a.contains(v) && b.contains(v) {
+                    let j = choose|j: int| 0 <= j < k - 1 && vtype(vehicles[v]) == #[trigger] vts[j];
+                    assert(vts[j] != vts[k - 1]);
+                }
+            }
+        }
+        vstd::set_lib::lemma_set_disjoint_lens(a, b);
+        let tk = vts.take(k);
+        assert(tk.drop_last() =~= vts.take(k - 1));
+        assert(tk.last() == vts[k - 1]);
+        assert forall|v: VehicleIdx| spcl_typed_union(vehicles, vts, k).contains(v) implies exists|j: int| 0 <= j < k && vtype(vehicles[v]) == #[trigger] vts[j] by {
+            if a.contains(v) {
+                let j = choose|j: int| 0 <= j < k - 1 && vtype(vehicles[v]) == #[trigger] vts[j];
+                assert(0 <= j < k && vtype(vehicles[v]) == vts[j]);
+            } else {
+                assert(0 <= k - 1 < k && vtype(vehicles[v]) == vts[k - 1]);
+            }
+        }
+    } else {
+        assert(vts.take(0) =~= Seq::<VehicleTypeIdx>::empty());
+    }
+}
+/// (magnitude clause of transitions_ok) the cycles of all listed types hold at most as many vehicles as there are
+pub proof fn spcl_lemma_len_sum_le_vehicles(s: &Schedule)
+    requires
+        sched_types(s).no_duplicates(),
+        forall|vt: VehicleTypeIdx| #[trigger] s.next_period_transitions@.contains_key(vt) <==> sched_types(s).contains(vt),
+        forall|vt: VehicleTypeIdx| #[trigger] s.next_period_transitions@.contains_key(vt) ==> s.next_period_transitions@[vt].wf(&s.network, s.tours@),
+        forall|vt: VehicleTypeIdx, v: VehicleIdx| #![trigger s.next_period_transitions@[vt].has_vehicle(v)] s.next_period_transitions@.contains_key(vt)
+            ==> (s.next_period_transitions@[vt].has_vehicle(v) <==> s.vehicles@.contains_key(v) && vtype(s.vehicles@[v]) == vt),
+    ensures len_sum(s.next_period_transitions@, sched_types(s)) <= s.vehicles@.dom().len(),
+{
+    let trs = s.next_period_transitions@;
+    let vts = sched_types(s);
+    let vehicles = s.vehicles@;
+    assert forall|i: int| 0 <= i < vts.len() implies (#[trigger] trs[vts[i]]).total_len() == spcl_typed_vehicles(vehicles, vts[i]).len() by {
+        let vt = vts[i];
+        assert(vts.contains(vt));
+        assert(trs.contains_key(vt));
+        let t = trs[vt];
+        assert(t.wf(&s.network, s.tours@));
+        spcl_lemma_total_len_is_lookup(t@);
+        assert(t@.lookup.dom() =~= spcl_typed_vehicles(vehicles, vt)) by {
+            assert forall|v: VehicleIdx| t@.lookup.dom().contains(v) <==> spcl_typed_vehicles(vehicles, vt).contains(v) by {
+                assert(t.has_vehicle(v) <==> vehicles.contains_key(v) && vtype(vehicles[v]) == vt);
+            }
+        }
+    }
+    spcl_lemma_typed_union(vehicles, trs, vts, vts.len() as int);
+    assert(vts.take(vts.len() as int) =~= vts);
+    vstd::set_lib::lemma_len_subset(spcl_typed_union(vehicles, vts, vts.len() as int), vehicles.dom());
+}
+/// C15 / C10 / C09 for the rotation cycles after one spawn: transitions_follow (the postcondition of
+/// update_transitions_and_violation_fast) gives every clause of transitions_ok for the result but the magnitude clause, which
+/// follows from counting: the cycles hold exactly the vehicles, and vehicle ids are 16 bit (2^16 < 2^17)
+pub proof fn spcl_lemma_transitions(s0: &Schedule, s1: &Schedule, vt: VehicleTypeIdx, path: Seq<NodeIdx>, id: VehicleIdx)
+    requires s0.transitions_ok(), s0.spawned(vt, path, s1, id), s0.transitions_follow(vt, s1), s1.sv_ids_ok(),
+    ensures s1.transitions_ok(),
+{
+    let trs1 = s1.next_period_transitions@;
+    assert(sched_types(s1) == sched_types(s0));
+    assert forall|t: VehicleTypeIdx| #[trigger] trs1.contains_key(t) <==> sched_types(s1).contains(t) by {
+        assert(s0.next_period_transitions@.contains_key(t) <==> sched_types(s0).contains(t));
+    }
+    spcl_lemma_len_sum_le_vehicles(s1);
+    lemma_at_most_2_16_vehicles(s1);
+}
+
+// ---- the bundle ---------------------------------------------------------------------------------------------------------------
+/// CLOSURE, conjunct by conjunct: s1 (the result of a spawn from s0 with new vehicle id) satisfies the clauses of sv_ok again;
+/// the magnitude clauses under hypotheses on s1
+pub open spec fn spcl_closed(s0: &Schedule, s1: &Schedule, id: VehicleIdx) -> bool {
+    let nodes = s1.tours@[id].nodes@;
+    // instance validity: the network is the same
+    &&& s1.network.wf() && depot_lists_ok(&s1.network)
+    // ids / listings
+    &&& s1.sv_ids_ok()
+    // formations: coverage, instance clause, C09
+    &&& s1.spcl_forms_cover_activities() && s1.spcl_trips_typed() && s1.spcl_unserved_covers()
+    // formations: magnitudes, under the hypothesis on the grown formations
+    &&& (s1.spcl_grown_len_small(nodes) ==> s1.spcl_forms_len_small())
+    &&& (s1.spcl_grown_sums_fit(nodes) ==> s1.spcl_forms_sums_fit())
+    &&& (s1.spcl_grown_len_small(nodes) && s1.spcl_grown_sums_fit(nodes) ==> s1.sv_formations_ok())
+    // rotation cycles
+    &&& s1.transitions_ok()
+    // depot usage (w.r.t. the result's own network)
+    &&& usage_exact(s1.depot_usage@, &s1.network, s1.vehicles@, s1.tours@)
+    // the bundle; magnitudes as hypotheses on the result
+    &&& (s1.spcl_grown_len_small(nodes) && s1.spcl_grown_sums_fit(nodes) && s1.costs <= sched_cost_bound() ==> s1.sv_ok())
+    // preconditions outside sv_ok that do not depend on the path
+    &&& (forall|t: VehicleTypeIdx| s0.type_known(t) ==> #[trigger] s1.type_known(t))
+    &&& (s0.network.start_depots_ok() ==> s1.network.start_depots_ok())
+}
+/// CLOSURE: what the postcondition of spawn_vehicle_for_path (spcl_step) makes of sv_ok
+pub proof fn spcl_lemma_closure(s0: &Schedule, s1: &Schedule, vt: VehicleTypeIdx, path: Seq<NodeIdx>, id: VehicleIdx)
+    requires s0.sv_ok(), s0.vehicle_counter <= 0xffff, s0.spcl_step(vt, path, s1, id),
+    ensures spcl_closed(s0, s1, id),
+{
+    assert(s1.network == s0.network);
+    spcl_lemma_ids(s0, s1, vt, path, id);
+    spcl_lemma_types_known(s0, s1, vt, path, id);
+    spcl_lemma_formations_split(s0);
+    spcl_lemma_formations_split(s1);
+    spcl_lemma_forms_frame(s0, s1, id);
+    spcl_lemma_unserved_covers(s0, s1, id);
+    spcl_lemma_transitions(s0, s1, vt, path, id);
 }
